@@ -62,7 +62,8 @@ def required_cells(tier):
     return {"bath:rotated-degenerate": 20, "bath_invariant": 200,
             "method:tempo": 3, "method:pt": 3, "method:meanfield": 2,
             "meanfield:two-systems": 2, "pt:reimported": 2,
-            "cov:degenerate": 3}
+            "cov:degenerate": 3, "cov:nearly-diagonal:pt": 2,
+            "cov:nearly-diagonal:tempo": 2}
 
 
 def cases(tier, seed):
@@ -90,7 +91,7 @@ def run_bath(case):
     violations, cells, sigs = [], [], set()
     n_ok = 0
     ukinds = ["haar", "real", "perm", "block", "phase", "givens_far",
-              "haar"]
+              "haar", "near_identity"]
     for n in range(40):
         d = int(rng.integers(2, 6))
         pattern = PATTERNS[(case["idx"] * 40 + n) % len(PATTERNS)]
@@ -172,8 +173,10 @@ def run_cov(case):
     epsrel = float(rng.choice([1e-7, 1e-8, 1e-9]))
     unique = bool((i // 3) % 2)
     o, rm, scale = lib.guard_coupling(p, o, dt, nsteps, kmax, tau, rng)
-    w = gen.structured_unitary(
-        rng, d, ["identity", "haar", "givens_far", "haar"][i % 4])
+    wkind = ["identity", "haar", "givens_far", "haar", "near_identity"][i % 5]
+    if wkind == "near_identity":
+        o = np.sort(o)      # then the diagonalising transform is near 1 too
+    w = gen.structured_unitary(rng, d, wkind)
     oper = w @ np.diag(o) @ w.conj().T
     oper = (oper + oper.conj().T) / 2
     v = gen.structured_unitary(rng, d, ukind)
@@ -302,6 +305,8 @@ def run_cov(case):
         cells.append("cov:degenerate")
     if unique:
         cells.append("cov:unique")
+    if wkind == "near_identity":
+        cells.append("cov:nearly-diagonal:" + method)
     sig = (method, d, pattern, ukind, unique, kmax is None)
     return {"violations": violations, "cells": cells,
             "monitors": {"bath_invariant": rec.evals.get("bath_invariant", 0),
